@@ -8,6 +8,8 @@ THEOREMS = ["Rink.Sandbox.serve_good", "Rink.Sandbox.sandbox_refines", "Rink.San
             "Rink.Sandbox.unfixed_sandbox_wedges"]
 SVC = os.path.join(vlib.HARNESS, "target", "release", "sbx_service")
 KINDS = ["add", "panic", "sleep", "oom", "exit", "big", "huge"]
+# a reply of 17 MiB (no framing limit may stand between a request and its reply)
+WIDE_SEQS = [["add", "wide", "add", "add"], ["wide", "wide", "add"], ["big", "wide", "panic", "add"]]
 # a reply that is still being received when the time limit ends: the child's output is slowed down for these
 # sequences only (a slowed child that panics or exits loses its last words, which would not be Rink's doing)
 BLOB_SEQS = [["add", "blob", "add", "add"], ["blob", "add"], ["blob", "blob", "add"], ["add", "big", "blob", "add", "sleep", "add"], ["blob", "sleep", "add"]]
@@ -15,11 +17,11 @@ TIMEOUT_MS = 400
 LIMIT = 64 << 20
 
 def concretise(kinds):
-    return ["%s:%d" % (k, i + 1) if k in ("add", "sleep", "big", "huge", "blob") else k for i, k in enumerate(kinds)]
+    return ["%s:%d" % (k, i + 1) if k in ("add", "sleep", "big", "huge", "blob", "wide") else k for i, k in enumerate(kinds)]
 
 def own(op):
     k = op.split(":")[0]
-    return {"add": "ok:" + op.split(":")[-1], "big": "ok:" + op.split(":")[-1], "sleep": "timeout", "panic": "panic", "oom": "crashed", "exit": "crashed", "huge": "crashed", "blob": "timeout"}[k]
+    return {"add": "ok:" + op.split(":")[-1], "big": "ok:" + op.split(":")[-1], "sleep": "timeout", "panic": "panic", "oom": "crashed", "exit": "crashed", "huge": "crashed", "blob": "timeout", "wide": "ok:" + op.split(":")[-1]}[k]
 
 def run_seq(args):
     ops, gap = args
@@ -60,6 +62,7 @@ def run(c):
     jobs = [(concretise(s), rnd.choice([0, 0, 5, 30, 0, 5, 30, TIMEOUT_MS * 5 // 4, TIMEOUT_MS * 2])) for s in seqs]
     jobs += [(concretise(s), g) for s in (["add", "add", "add"], ["add", "sleep", "add", "add"], ["add", "panic", "add"]) for g in (TIMEOUT_MS * 3 // 4, TIMEOUT_MS * 5 // 4, TIMEOUT_MS * 2)]
     jobs += [(concretise(s), g) for s in BLOB_SEQS for g in (0, 30)]
+    jobs += [(concretise(s), g) for s in WIDE_SEQS for g in (0, 30)]
     with ThreadPoolExecutor(max_workers=16) as ex:
         results = list(ex.map(run_seq, jobs))
     # a reply that differs from the request's own outcome is re-checked with the machine to itself: the
@@ -79,7 +82,7 @@ def run(c):
     # model
     req_path = os.path.join(c.work, "req.txt")
     # (for the model a reply that arrives too late is an overrun like any other: `blob` is `sleep`)
-    open(req_path, "w").write("\n".join(" ".join(o.replace("blob:", "sleep:") for o in ops) for ops, _, _, _ in results) + "\n")
+    open(req_path, "w").write("\n".join(" ".join(o.replace("blob:", "sleep:").replace("wide:", "big:") for o in ops) for ops, _, _, _ in results) + "\n")
     if not c.run_model("sandbox"):
         return
     model = open(os.path.join(c.work, "model.txt")).read().split("\n")
